@@ -77,6 +77,8 @@ def dump(c, out):
         out.append("net %s %d%s" % (exact_double(wt), len(cells),
                                     "".join(" %d %d %d" % (cells[k], xo[k], yo[k]) for k in range(len(cells)))))
     out.append("end")
+    # values of the remaining read-only properties / methods, through the bindings
+    out.append("py %d %d %d %d %d %d" % (c.nb_cells, c.nb_nets, c.nb_rows, c.nb_pins, c.row_height, c.hpwl()))
 
 
 def esc(line):
